@@ -933,3 +933,40 @@ m('NS1-predicate-dropped-in-recursion', 'C02', 'NS1', 'PyTreeSpec::FlattenIntoIm
                                                                             std::nullopt,
                                                                             registry_namespace);
         };""")
+m('A7-field-writes-into-the-callers-metadata', 'C14', 'A7', 'field/metadataitem store', 'optree/dataclasses.py',
+  """    metadata = (metadata or {}).copy()""",
+  """    metadata = metadata if metadata is not None else {}""")
+m('A7-keyword-dict-of-the-partial-updated-in-place', 'C14', 'A7', 'partial.__new__', 'optree/functools.py',
+  """        return super().__new__(cls, func, *args, **keywords)
+
+    def __repr__""",
+  """        if isinstance(func, functools.partial):
+            func.keywords.update(keywords)
+        return super().__new__(cls, func, *args, **keywords)
+
+    def __repr__""")
+m('A6-dict-read-before-the-keyset-check', 'C14', 'A6', 'prefix_errors.helper/full_subtree[k]', 'optree/ops.py',
+  """            prefix_tree_keys_set = set(prefix_tree_keys)
+            full_tree_keys_set = set(full_tree_keys)
+            if prefix_tree_keys_set != full_tree_keys_set:""",
+  """            prefix_tree_keys_set = set(prefix_tree_keys)
+            full_tree_keys_set = set(full_tree_keys)
+            if len(prefix_tree_keys_set) != len(full_tree_keys_set):""")
+m('S1-leaf-states-shared-between-nodes', 'C11', 'S1', 'ToPickleable/one-state-per-node', 'src/treespec/serialization.cpp',
+  """    ssize_t i = 0;
+    for (const auto& node : m_traversal) {
+        const scoped_critical_section2 cs{
+            node.custom != nullptr ? py::handle{node.custom->type.ptr()} : py::handle{},
+            node.node_data};
+        TupleSetItem(node_states,""",
+  """    ssize_t i = 0;
+    py::object leaf_state{};
+    for (const auto& node : m_traversal) {
+        if (node.arity == 0 && !node.node_data && leaf_state) [[likely]] {
+            TupleSetItem(node_states, i++, leaf_state);
+            continue;
+        }
+        const scoped_critical_section2 cs{
+            node.custom != nullptr ? py::handle{node.custom->type.ptr()} : py::handle{},
+            node.node_data};
+        TupleSetItem(node_states,""")
